@@ -11,6 +11,9 @@
             obs := (outcome (item ...) files open)
           | (2 cap fault (item ...))                MafWriter with a sorter, C18
             reply: ((add-outcome ...) (close-outcome ...) (item ...) closed (files fds wh rh) (call ...) hit?)
+          | (3 cap always stop enoent (op ...))     the world case with a fault injected at every
+            call of the fault-free run in turn; reply: (fault-free-reply (reply-0 reply-1 ...))
+          | (4 cap enoent (item ...))               same for the writer
    item out := (key id gen)   gen = 1 for a decoded copy
    outcome  := () ok | (code ...) exception | (-1) unmodelled (tainted sorter)
    The host's sorted()/heapq are instantiated with "left-most minimal". *)
@@ -99,6 +102,17 @@ Definition run_writer (c : nat) (f : option (nat * bool)) (xs : list item) : sex
   L [s_of_list enc_outcome ao; s_of_list enc_outcome co; s_of_list enc_item (wout item Z wire wr);
      s_of_bool (whclosed item Z wire wr); enc_counts w; enc_log w; enc_hit w].
 
+(* a fault at every call of the fault-free run, in turn *)
+Definition sweep_world (c : nat) (al stop eno : bool) (ops : list wop) : sexp :=
+  let '(_, _, w) := w_workload item Z wire item_key Z.ltb item_enc item_dec leftmost_min c al stop ops None in
+  L [run_world c al stop None ops;
+     L (map (fun i => run_world c al stop (Some (i, eno)) ops) (seq 0 (length (log wire w))))].
+
+Definition sweep_writer (c : nat) (eno : bool) (xs : list item) : sexp :=
+  let '(_, _, _, w) := wr_workload item Z wire item_key Z.ltb item_enc item_dec leftmost_min c xs None in
+  L [run_writer c None xs;
+     L (map (fun i => run_writer c (Some (i, eno)) xs) (seq 0 (length (log wire w))))].
+
 Definition dispatch (s : sexp) : sexp :=
   match s with
   | L [A 0; A c; A al; ops] =>
@@ -115,6 +129,16 @@ Definition dispatch (s : sexp) : sexp :=
       match dec_fault f, as_listof dec_item xs with
       | Some f', Some l => run_writer (Z.to_nat c) f' l
       | _, _ => s_bad
+      end
+  | L [A 3; A c; A al; A st; A eno; ops] =>
+      match as_listof dec_wop ops with
+      | Some l => sweep_world (Z.to_nat c) (negb (al =? 0)) (negb (st =? 0)) (negb (eno =? 0)) l
+      | None => s_bad
+      end
+  | L [A 4; A c; A eno; xs] =>
+      match as_listof dec_item xs with
+      | Some l => sweep_writer (Z.to_nat c) (negb (eno =? 0)) l
+      | None => s_bad
       end
   | _ => s_bad
   end.
